@@ -141,8 +141,23 @@ def getThunk (t : TId) : M TState := do
   | some s => pure s
   | none => throw (.internal "bad thunk id")
 
-def setThunk (t : TId) (s : TState) : M Unit :=
-  modify fun st => { st with thunks := st.thunks.setIfInBounds t s }
+/-- `ThunkData::switch_state`: the previous state is returned; a pending thunk becomes in progress
+    (and its computation is counted as started once more). -/
+def switchState (t : TId) : M TState := do
+  let st ← get
+  match st.thunks[t]? with
+  | some (.pending p) =>
+    set { st with thunks := st.thunks.setIfInBounds t (.inProgress p), runs := st.runs.modify t (· + 1) }
+    pure (.pending p)
+  | some s => pure s
+  | none => throw (.internal "bad thunk id")
+
+/-- `ThunkData::set_done`: `assert!(matches!(*state, ThunkState::InProgress))`, then the value is stored. -/
+def finishThunk (t : TId) (v : Value) : M Unit := do
+  let st ← get
+  match st.thunks[t]? with
+  | some (.inProgress _) => set { st with thunks := st.thunks.setIfInBounds t (.done v) }
+  | _ => throw (.internal "set_done on a thunk that is not in progress")
 
 def getEnv (e : EId) : M Env := do
   match (← get).envs[e]? with
@@ -159,6 +174,10 @@ def getObj (o : OId) : M Obj := do
 
 def setObj (o : OId) (v : Obj) : M Unit :=
   modify fun st => { st with objs := st.objs.setIfInBounds o v }
+
+/-- the `trace` callback: the message is recorded -/
+def pushTrace (msg : String) : M Unit :=
+  modify fun st => { st with traces := msg :: st.traces }
 
 def getFunc (f : FId) : M Func := do
   match (← get).funcs[f]? with
@@ -587,6 +606,36 @@ def sliceRange (len : Nat) (a b c : Option Float) : M (Nat × Nat × Nat) := do
       pure f.toUInt64.toNat
   pure (start, stop, step)
 
+/-- a slice bound or step: `null` = absent, otherwise a number -/
+def sliceNum (v : Value) : M (Option Float) :=
+  match v with
+  | .null => pure none
+  | .num f => pure (some f)
+  | v => throw (.rt "SliceIndexOrStepIsNotNumber" (typeName v))
+
+/-- a finite double as `mantissa * 2^exponent` with a natural mantissa below 2^53 (sign dropped) -/
+def floatDecode (x : Float) : Nat × Int :=
+  let bits := x.toBits.toNat
+  let expField : Nat := (bits / 2 ^ 52) % 2048
+  let frac : Nat := bits % 2 ^ 52
+  if expField == 0 then (frac, -1074) else (frac + 2 ^ 52, Int.ofNat expField - 1075)
+
+/-- C `fmod` on finite doubles with `b ≠ 0`: the exact remainder of the truncated division, computed
+    on integers (the result is always representable, its mantissa is below 2^53) -/
+def fmodExact (a b : Float) : Float :=
+  let (ma, ea) := floatDecode a
+  let (mb, eb) := floatDecode b
+  let e := min ea eb
+  let A := ma * 2 ^ (ea - e).toNat
+  let B := mb * 2 ^ (eb - e).toNat
+  let r := A % B
+  let mag := (Float.ofNat r).scaleB e
+  if a < 0.0 || (a == 0.0 && 1.0 / a < 0.0) then -mag else mag
+
+/-- `try_to_i32_exact` then `usize::try_from`: an exact non-negative 32-bit integer -/
+def makeArraySize (n : Float) : Option Nat :=
+  if n.isFinite && n.floor == n && n ≥ 0.0 && n ≤ 2147483647.0 then some n.toUInt64.toNat else none
+
 def stepBy {α} (l : List α) (k : Nat) : List α :=
   (l.zipIdx.filter (fun p => p.2 % k == 0)).map Prod.fst
 
@@ -605,14 +654,8 @@ def binaryOp (op : BinOp) (lhs rhs : Value) (d : Nat) (hasSpan : Bool) : M Value
     let r := a / b; checkNum r; pure (.num r)
   | .rem, .num a, .num b =>
     if b == 0.0 then throw (.rt "DivByZero" "")
-    -- Rust `%` on f64 is fmod (truncated): exact
-    let q := (a / b)
-    let r := a - b * (if q < 0.0 then q.ceil else q.floor)
-    -- fmod is exact; the formula above is only exact for moderate magnitudes
-    if a.abs > 1.0e15 || b.abs > 1.0e15 || (b.abs < 1.0 && b.abs != 0.5 && b.abs != 0.25) then
-      throw (.unsupported "fmod outside the exactly modelled range")
-    -- fmod keeps the sign of the dividend, also for a zero result
-    let r := if r == 0.0 then (if a < 0.0 || (a == 0.0 && 1.0 / a < 0.0) then -0.0 else 0.0) else r
+    -- Rust `%` on f64 is C `fmod`: exact, sign of the dividend
+    let r := fmodExact a b
     checkNum r; pure (.num r)
   | .shl, .num a, .num b =>
     let l ← safeInt a
@@ -654,6 +697,118 @@ def binaryOp (op : BinOp) (lhs rhs : Value) (d : Nat) (hasSpan : Bool) : M Value
     pure (.bool ((findField (← getObj o) 0 f).isSome))
   | _, _, _ => bad
 
+/-- one member of an object literal added to the layer under construction -/
+def objectMember (env : EId) (d : Nat) (layer : Layer) (m : Members) : M Layer := do
+  match m with
+  | .fieldFix n plus vis ps ve _ =>
+    addField layer n plus vis (bindExpr ps ve) none
+  | .fieldDyn ne plus vis ps ve _ =>
+    match ← rec (.eval ne env false d) with
+    | .str n => addField layer n plus vis (bindExpr ps ve) none
+    | .null => pure layer
+    | v => throw (.rt "FieldNameIsNotString" (typeName v))
+  | _ => pure layer
+
+/-- an optional slice bound: absent = `null` -/
+def sliceArg (env : EId) (d : Nat) (x : OptExpr) : M Value :=
+  match x with
+  | .none => pure .null
+  | .some e => rec (.eval e env false d)
+
+/-- `std.length` -/
+def std_length (t : TId) (d1 : Nat) : M Value := do
+  match ← rec (.force t d1) with
+  | .str s => pure (.num (Float.ofNat s.length))
+  | .arr items => pure (.num (Float.ofNat items.length))
+  | .obj o => do pure (.num (Float.ofNat (visibleFields (← getObj o)).length))
+  | .func f => do pure (.num (Float.ofNat (← getFunc f).params.length))
+  | v => throw (.rt "InvalidStdFuncArgType" s!"length/0/{typeName v}")
+
+/-- `std.type` -/
+def std_type (t : TId) (d1 : Nat) : M Value := do
+  pure (.str (typeStr (← rec (.force t d1))))
+
+/-- `std.trace` -/
+def std_trace (t0 : TId) (t1 : TId) (d1 : Nat) : M Value := do
+  let rest ← rec (.force t1 d1)
+  match ← rec (.force t0 d1) with
+  | .str msg =>
+    pushTrace msg
+    pure rest
+  | v => throw (.rt "InvalidStdFuncArgType" s!"trace/0/{typeName v}")
+
+/-- `std.objectHasEx` -/
+def std_objectHasEx (t0 : TId) (t1 : TId) (t2 : TId) (d1 : Nat) : M Value := do
+  let ov ← rec (.force t0 d1)
+  let fv ← rec (.force t1 d1)
+  let hv ← rec (.force t2 d1)
+  let .obj o := ov | throw (.rt "InvalidStdFuncArgType" s!"objectHasEx/0/{typeName ov}")
+  let .str f := fv | throw (.rt "InvalidStdFuncArgType" s!"objectHasEx/1/{typeName fv}")
+  let .bool h := hv | throw (.rt "InvalidStdFuncArgType" s!"objectHasEx/2/{typeName hv}")
+  let ob ← getObj o
+  pure (.bool (if h then (findField ob 0 f).isSome else hasVisibleField ob f))
+
+/-- `std.objectFieldsEx` -/
+def std_objectFieldsEx (t0 : TId) (t1 : TId) (d1 : Nat) : M Value := do
+  let ov ← rec (.force t0 d1)
+  let hv ← rec (.force t1 d1)
+  let .obj o := ov | throw (.rt "InvalidStdFuncArgType" s!"objectFieldsEx/0/{typeName ov}")
+  let .bool h := hv | throw (.rt "InvalidStdFuncArgType" s!"objectFieldsEx/1/{typeName hv}")
+  let names := (fieldsOrder (← getObj o)).filterMap
+    (fun p => if h || p.2 != .hidden then some p.1 else none)
+  let mut out : List TId := []
+  for n in names do
+    out := out ++ [← allocThunk (.done (.str n))]
+  pure (.arr out)
+
+/-- `std.map` -/
+def std_map (t0 : TId) (t1 : TId) (d1 : Nat) : M Value := do
+  -- `do_std_map`: one deferred application per element; nothing is called yet
+  let fv ← rec (.force t0 d1)
+  let av ← rec (.force t1 d1)
+  let .func f := fv | throw (.rt "InvalidStdFuncArgType" s!"map/0/{typeName fv}")
+  match av with
+  | .arr items =>
+    let mut out : List TId := []
+    for it in items do
+      out := out ++ [← allocThunk (.pending (.call f [it]))]
+    pure (.arr out)
+  | .str s =>
+    let mut out : List TId := []
+    for c in s.toList do
+      let a ← allocThunk (.done (.str (String.singleton c)))
+      out := out ++ [← allocThunk (.pending (.call f [a]))]
+    pure (.arr out)
+  | v => throw (.rt "InvalidStdFuncArgType" s!"map/1/{typeName v}")
+
+/-- `std.makeArray` -/
+def std_makeArray (t0 : TId) (t1 : TId) (d1 : Nat) : M Value := do
+  let sv ← rec (.force t0 d1)
+  let fv ← rec (.force t1 d1)
+  let .num n := sv | throw (.rt "InvalidStdFuncArgType" s!"makeArray/0/{typeName sv}")
+  let .func f := fv | throw (.rt "InvalidStdFuncArgType" s!"makeArray/1/{typeName fv}")
+  let some k := makeArraySize n | throw (.rt "Other" "invalid size value")
+  if (← getFunc f).params.length != 1 then
+    throw (.rt "Other" "function must have exactly 1 parameter")
+  if k > 4096 then throw (.unsupported "large makeArray")
+  let mut out : List TId := []
+  for i in List.range k do
+    let a ← allocThunk (.done (.num (Float.ofNat i)))
+    out := out ++ [← allocThunk (.pending (.call f [a]))]
+  pure (.arr out)
+
+/-- the builtin applied to its argument thunks -/
+def builtinCall (b : Builtin) (ts : List TId) (d1 : Nat) : M Value :=
+  match b, ts with
+  | .length, [t] => std_length rec t d1
+  | .type_, [t] => std_type rec t d1
+  | .trace, [t0, t1] => std_trace rec t0 t1 d1
+  | .objectHasEx, [t0, t1, t2] => std_objectHasEx rec t0 t1 t2 d1
+  | .objectFieldsEx, [t0, t1] => std_objectFieldsEx rec t0 t1 d1
+  | .map, [t0, t1] => std_map rec t0 t1 d1
+  | .makeArray, [t0, t1] => std_makeArray rec t0 t1 d1
+  | _, _ => throw (.internal "builtin arity")
+
 /-- `CompareArray`: element-wise, stops at the first non-equal pair. -/
 def compareLists (d : Nat) : List TId → List TId → M Value
   | [], [] => pure (.num 0.0)
@@ -670,12 +825,10 @@ def compareLists (d : Nat) : List TId → List TId → M Value
 /-- One level of the evaluator; `rec` is the evaluator with less fuel. -/
 def step : Task → M Value
   | .force t d => do
-    match ← getThunk t with
+    match ← switchState t with
     | .done v => pure v
     | .inProgress _ => throw .infiniteRecursion
     | .pending p =>
-      setThunk t (.inProgress p)
-      modify fun st => { st with runs := st.runs.modify t (· + 1) }
       let v ← match p with
         | .expr e env => rec (.eval e env false d)
         | .plus e field env => do
@@ -691,7 +844,7 @@ def step : Task → M Value
           let argThunks ← bindThunkArgs fn args
           let inner ← newEnv (some fn.env) ((fn.params.map Prod.fst).zip argThunks)
           rec (.eval fn.body inner true d)
-      setThunk t (.done v)
+      finishThunk t v
       pure v
   | .asserts o d => do
     let ob ← getObj o
@@ -838,15 +991,7 @@ def step : Task → M Value
       let mut layer : Layer := { isTop, locals := memberLocals ms, baseEnv := some env, env := none,
                                  fields := [], asserts := memberAsserts ms }
       for m in membersList ms do
-        match m with
-        | .fieldFix n plus vis ps ve _ =>
-          layer ← addField layer n plus vis (bindExpr ps ve) none
-        | .fieldDyn ne plus vis ps ve _ =>
-          match ← rec (.eval ne env false d) with
-          | .str n => layer ← addField layer n plus vis (bindExpr ps ve) none
-          | .null => pure ()
-          | v => throw (.rt "FieldNameIsNotString" (typeName v))
-        | _ => pure ()
+        layer ← objectMember rec env d layer m
       let o ← allocObj { layers := [layer], assertsChecked := false }
       pure (.obj o)
     | .objectComp locals name plus body spec => do
@@ -900,19 +1045,12 @@ def step : Task → M Value
       | v => throw (.rt "InvalidIndexedType" (typeName v))
     | .slice oe a b c => do
       let ov ← rec (.eval oe env false d)
-      let ev (x : OptExpr) : M Value := match x with
-        | .none => pure .null
-        | .some e => rec (.eval e env false d)
-      let av ← ev a
-      let bv ← ev b
-      let cv ← ev c
-      let toF (v : Value) : M (Option Float) := match v with
-        | .null => pure none
-        | .num f => pure (some f)
-        | v => throw (.rt "SliceIndexOrStepIsNotNumber" (typeName v))
-      let af ← toF av
-      let bf ← toF bv
-      let cf ← toF cv
+      let av ← sliceArg rec env d a
+      let bv ← sliceArg rec env d b
+      let cv ← sliceArg rec env d c
+      let af ← sliceNum av
+      let bf ← sliceNum bv
+      let cf ← sliceNum cv
       match ov with
       | .str s =>
         let cs := s.toList
@@ -1079,77 +1217,7 @@ def step : Task → M Value
         ts := ts ++ [← newThunk ae env]
       checkDepth cfg (d + 1)
       let d1 := d + 1
-      match b, ts with
-      | .length, [t] => do
-        match ← rec (.force t d1) with
-        | .str s => pure (.num (Float.ofNat s.length))
-        | .arr items => pure (.num (Float.ofNat items.length))
-        | .obj o => do pure (.num (Float.ofNat (visibleFields (← getObj o)).length))
-        | .func f => do pure (.num (Float.ofNat (← getFunc f).params.length))
-        | v => throw (.rt "InvalidStdFuncArgType" s!"length/0/{typeName v}")
-      | .type_, [t] => do
-        pure (.str (typeStr (← rec (.force t d1))))
-      | .trace, [t0, t1] => do
-        let rest ← rec (.force t1 d1)
-        match ← rec (.force t0 d1) with
-        | .str msg =>
-          modify fun st => { st with traces := msg :: st.traces }
-          pure rest
-        | v => throw (.rt "InvalidStdFuncArgType" s!"trace/0/{typeName v}")
-      | .objectHasEx, [t0, t1, t2] => do
-        let ov ← rec (.force t0 d1)
-        let fv ← rec (.force t1 d1)
-        let hv ← rec (.force t2 d1)
-        let .obj o := ov | throw (.rt "InvalidStdFuncArgType" s!"objectHasEx/0/{typeName ov}")
-        let .str f := fv | throw (.rt "InvalidStdFuncArgType" s!"objectHasEx/1/{typeName fv}")
-        let .bool h := hv | throw (.rt "InvalidStdFuncArgType" s!"objectHasEx/2/{typeName hv}")
-        let ob ← getObj o
-        pure (.bool (if h then (findField ob 0 f).isSome else hasVisibleField ob f))
-      | .objectFieldsEx, [t0, t1] => do
-        let ov ← rec (.force t0 d1)
-        let hv ← rec (.force t1 d1)
-        let .obj o := ov | throw (.rt "InvalidStdFuncArgType" s!"objectFieldsEx/0/{typeName ov}")
-        let .bool h := hv | throw (.rt "InvalidStdFuncArgType" s!"objectFieldsEx/1/{typeName hv}")
-        let names := (fieldsOrder (← getObj o)).filterMap
-          (fun p => if h || p.2 != .hidden then some p.1 else none)
-        let mut out : List TId := []
-        for n in names do
-          out := out ++ [← allocThunk (.done (.str n))]
-        pure (.arr out)
-      | .map, [t0, t1] => do
-        -- `do_std_map`: one deferred application per element; nothing is called yet
-        let fv ← rec (.force t0 d1)
-        let av ← rec (.force t1 d1)
-        let .func f := fv | throw (.rt "InvalidStdFuncArgType" s!"map/0/{typeName fv}")
-        match av with
-        | .arr items =>
-          let mut out : List TId := []
-          for it in items do
-            out := out ++ [← allocThunk (.pending (.call f [it]))]
-          pure (.arr out)
-        | .str s =>
-          let mut out : List TId := []
-          for c in s.toList do
-            let a ← allocThunk (.done (.str (String.singleton c)))
-            out := out ++ [← allocThunk (.pending (.call f [a]))]
-          pure (.arr out)
-        | v => throw (.rt "InvalidStdFuncArgType" s!"map/1/{typeName v}")
-      | .makeArray, [t0, t1] => do
-        let sv ← rec (.force t0 d1)
-        let fv ← rec (.force t1 d1)
-        let .num n := sv | throw (.rt "InvalidStdFuncArgType" s!"makeArray/0/{typeName sv}")
-        let .func f := fv | throw (.rt "InvalidStdFuncArgType" s!"makeArray/1/{typeName fv}")
-        if !(n.isFinite && n.floor == n && n ≥ 0.0 && n ≤ 2147483647.0) then
-          throw (.rt "Other" "invalid size value")
-        if (← getFunc f).params.length != 1 then
-          throw (.rt "Other" "function must have exactly 1 parameter")
-        if n > 4096.0 then throw (.unsupported "large makeArray")
-        let mut out : List TId := []
-        for i in List.range n.toUInt64.toNat do
-          let a ← allocThunk (.done (.num (Float.ofNat i)))
-          out := out ++ [← allocThunk (.pending (.call f [a]))]
-        pure (.arr out)
-      | _, _ => throw (.internal "builtin arity")
+      builtinCall rec b ts d1
 
 end
 
@@ -1173,18 +1241,25 @@ def showErr : Err → String
   | .unsupported m => "unsupported " ++ strHex m
   | .rt k d => "err eval " ++ k ++ " " ++ strHex d
 
+/-- one request on a thunk: evaluate it, force the value deeply, manifest it -/
+def requestProg (cfg : Cfg) (fuel : Nat) (t : TId) : M String := do
+  let v ← run cfg fuel (.force t 0)
+  let _ ← run cfg fuel (.deep v 0)
+  match ← run cfg fuel (.manifest v 0 true) with
+  | .str s => pure s
+  | _ => throw (.internal "manifest did not return a string")
+
+/-- a fresh store with the program's root thunk, then one request on it -/
+def programProg (cfg : Cfg) (fuel : Nat) (e : Expr) : M String := do
+  let stdT ← allocThunk (.done .null)
+  let root ← allocEnv { parent := none, vars := [("std", stdT)], obj := none }
+  let t ← allocThunk (.pending (.expr e root))
+  requestProg cfg fuel t
+
 /-- `load_source` + `eval_value` + manifestation of a closed program; `std` is
     the only variable in scope (its thunk is never forced by the core model). -/
 def evalProgram (cfg : Cfg) (fuel : Nat) (e : Expr) : String × St :=
-  let prog : M String := do
-    let stdT ← allocThunk (.done .null)
-    let root ← allocEnv { parent := none, vars := [("std", stdT)], obj := none }
-    let t ← allocThunk (.pending (.expr e root))
-    let v ← run cfg fuel (.force t 0)
-    let _ ← run cfg fuel (.deep v 0)
-    match ← run cfg fuel (.manifest v 0 true) with
-    | .str s => pure s
-    | _ => throw (.internal "manifest did not return a string")
+  let prog : M String := programProg cfg fuel e
   match (prog.run).run {} with
   | none => ("gas", {})
   | some (.ok s, st) => ("ok " ++ s, st)
@@ -1202,12 +1277,7 @@ inductive Req where
 
 /-- One request; a failure restores the thunks that were in progress. -/
 def runRequest (cfg : Cfg) (fuel : Nat) (t : TId) (st : St) : String × St :=
-  let prog : M String := do
-    let v ← run cfg fuel (.force t 0)
-    let _ ← run cfg fuel (.deep v 0)
-    match ← run cfg fuel (.manifest v 0 true) with
-    | .str s => pure s
-    | _ => throw (.internal "manifest did not return a string")
+  let prog : M String := requestProg cfg fuel t
   match (prog.run).run st with
   | none => ("gas", st)
   | some (.ok s, st') => ("ok " ++ s, st')
